@@ -5,12 +5,14 @@ import time
 from vlib.common import finish
 from vlib.bounded import Bounded
 from harness import c07 as driver
+from checks._proof import proof_subobligations
 
 PROP = 'C07'
 
 
 def run():
     t0 = time.time()
+    pv, pu, pe, ppart, passumed = proof_subobligations(PROP, ['contracts.c07_bumps'], ['ak.ghist'])
     b = Bounded(PROP, 'harness.c07')
     driver.run(b)
     cov = b.coverage(
@@ -31,7 +33,13 @@ def run():
              f"(2) the parent's builds pin >= 2 distinct component builds",
         exhaustive=False,
         extra={'exhaustive_part': 'repo_order over <= 4 repositories', 'counts': dict(b.notes)})
-    return finish(PROP, 'exploration', b.violations(), [], b.errors, cov,
+    cov.update(ppart)
+    _seen, _viol = set(), []
+    for _v in pv + b.violations():
+        if _v.key not in _seen:
+            _seen.add(_v.key)
+            _viol.append(_v)
+    return finish(PROP, 'exploration', _viol, pu, pe + b.errors, cov, passumed +
                   ["report-related component builds = the builds shown in the component's own report "
                    "(their correctness is C06's subject)",
                    "the component has a single branch (with several component branches the statement's 'contains' "
